@@ -66,9 +66,14 @@ class FnVerifier(Verifier):
                     if kw.arg == 'kinds':         # kinds=dict(d='ref:DFAState'): typed bound variables
                         kinds = ast.literal_eval(kw.value) if not isinstance(kw.value, ast.Call) else \
                             {k.arg: k.value.value for k in kw.value.keywords}
+                for j_, n in enumerate(names):
+                    if kinds.get(n) == 'str':
+                        vs[j_] = z3.String(fresh_name(n))
                 for n, v in zip(names, vs):
                     kd = kinds.get(n, 'int')
-                    if kd.startswith('ref'):
+                    if kd == 'str':
+                        s.env[n] = VStr(v)
+                    elif kd.startswith('ref'):
                         s.env[n] = VRef(v, kd[4:] or None)
                     elif kd == 'any':
                         s.env[n] = VAny(v)
@@ -81,11 +86,7 @@ class FnVerifier(Verifier):
                         tv = self.ev.ev(s, kw.value.body)
                         pats.append(tv.t)
                 if pats and f.id == 'forall':
-                    pats = [z3.simplify(p_) for p_ in pats]      # array stores at literal indices fold away
-                    try:
-                        return VBool(z3.ForAll(vs, body, patterns=pats))
-                    except z3.Z3Exception:
-                        return VBool(z3.ForAll(vs, body))         # pattern not expressible (if-then-else inside): let z3 choose
+                    return VBool(smt.forall(vs, body, patterns=pats))   # (falls back to z3's choice when a pattern holds an ite)
                 return VBool(z3.ForAll(vs, body) if f.id == 'forall' else z3.Exists(vs, body))
             if f.id == 'implies':
                 a = self.ev.truthy(st, self.ev.ev(st, e.args[0]))
@@ -301,7 +302,14 @@ class FnVerifier(Verifier):
                 if len(it.args) > 1:
                     start = self.as_int(self.ev.ev(st, it.args[1]))
             elif mode == 'reversed':
-                seq = self.ev.ev(st, it.args[0])
+                a0 = it.args[0]
+                if isinstance(a0, ast.Call) and isinstance(a0.func, ast.Name) and a0.func.id == 'list' and len(a0.args) == 1 \
+                        and isinstance(a0.args[0], ast.Call) and isinstance(a0.args[0].func, ast.Name) \
+                        and a0.args[0].func.id == 'enumerate' and len(a0.args[0].args) == 1:
+                    mode = 'revenum'          # reversed(list(enumerate(x))): pairs (n-1-i, x[n-1-i]) of a snapshot
+                    seq = self.ev.ev(st, a0.args[0].args[0])
+                else:
+                    seq = self.ev.ev(st, a0)
             else:
                 a = [self.as_int(self.ev.ev(st, x)) for x in it.args]
                 lo, hi = (z3.IntVal(0), a[0]) if len(a) == 1 else (a[0], a[1])
@@ -346,13 +354,19 @@ class FnVerifier(Verifier):
                 val = VInt(lo + i)
             elif mode == 'reversed':
                 val = self.elem_value(b.lget(seq.t, n - 1 - i, seq.ek), seq.ek)
+            elif mode == 'revenum':
+                val = VTuple([VInt(n - 1 - i), self.elem_value(b.lget(seq.t, n - 1 - i, seq.ek), seq.ek)])
             elif isinstance(seq, VStr):
                 val = VStr(z3.SubString(seq.t, i, 1))        # iteration over a string: its characters
             else:
                 val = self.elem_value(b.lget(seq.t, i, seq.ek), seq.ek)
             if mode == 'enumerate':
                 val = VTuple([VInt(start + i), val])
-            self.assign(b, s.target, val)
+            self._loop_binding = True
+            try:
+                self.assign(b, s.target, val)
+            finally:
+                self._loop_binding = False
             b.env[ivar] = VInt(i + 1)
             b.env['_i'] = b.env[ivar]
         if isinstance(seq, VList):
@@ -362,6 +376,22 @@ class FnVerifier(Verifier):
         def post_havoc(h):
             h.env['_i'] = h.env[ivar]
         tnames = [n.id for n in ast.walk(s.target) if isinstance(n, ast.Name)]     # the loop target is rebound too
+        if any(tn not in st.env for tn in tnames) and (mode == 'range' or isinstance(seq, (VList, VStr))):
+            # targets that are not bound before the loop: give them a value of the right kind (so that invariants can
+            # mention them) and remember that reading them is an UnboundLocalError unless the body ran
+            probe = st.fork()
+            probe.env = dict(st.env)
+            probe.env[ivar] = VInt(z3.Int(fresh_name('probe_i')))
+            pre_body(probe)
+            ub = dict(st.env.get('$ub') or {})
+            for tn in tnames:
+                if tn not in st.env:
+                    kd = value_kind(probe.env[tn]) or self._loop_var_kinds.get(tn)
+                    if kd is None:
+                        raise OutOfSubset('kind of loop target %s (unbound before the loop) is not known' % tn)
+                    st.env[tn] = fresh(kd, tn)
+                    ub[tn] = n >= 1
+            st.env['$ub'] = ub
         res = self.run_loop(st, s, k, sp, guard, pre_body, s.body, s.orelse, extra_names=[ivar] + tnames, post_havoc=post_havoc)
         return outs + res
 
@@ -438,7 +468,7 @@ class FnVerifier(Verifier):
         # everything reachable at entry is allocated
         for n, v in list(st.env.items()) + list(self.closure_env.items()):
             if isinstance(v, (VRef, VList)):
-                st.pc.append(z3.Or(v.t <= 0, st.is_alloc(v.t)))
+                st.pc.append(z3.Or(v.t == 0, st.is_alloc(v.t)))
         l_ = z3.Int('l!len')
         ln0 = st.arr('$len', z3.ArraySort(I, I))
         st.pc.append(smt.forall([l_], z3.Select(ln0, l_) >= 0, patterns=[z3.Select(ln0, l_)]))
@@ -449,7 +479,7 @@ class FnVerifier(Verifier):
         i_ = z3.Int('i!el')
         e_ = z3.Select(z3.Select(el, l_), i_)
         st.pc.append(z3.ForAll([l_, i_], z3.Implies(z3.And(0 <= i_, i_ < z3.Select(ln0, l_)),
-                                                    z3.Or(e_ <= 0, z3.Select(al, e_))), patterns=[e_]))
+                                                    z3.Or(e_ == 0, z3.Select(al, e_))), patterns=[e_]))
         for th in ctr.theories:
             fn = THEORIES.get(th)
             if fn is None:
